@@ -34,6 +34,7 @@ def leaf(rng, odd_tz=True):
     return rng.choice([lambda: None, lambda: True, lambda: False, lambda: rng.choice([0, 1, -1, 7, 10 ** 20, -10 ** 30, 2 ** 64, 10 ** 300, 10 ** 40, 255]), lambda: rfloat(rng), lambda: rstr(rng), lambda: rstr(rng),
                        lambda: bytes(rng.getrandbits(8) for _ in range(rng.choice([0, 1, 2, 3, 56, 57, 58, 120]))), lambda: rdate(rng), lambda: rdt(rng, odd_tz)])()
 def key(rng, odd_tz=True):
+    if rng.random() < 0.012: return rng.choice(['', 'k', ' ']) + rng.choice(['\U0001F600', '\U0001F600', '\x07', '\u263a']) * rng.choice([90, 101, 102, 103, 120, 126, 127, 128, 129])   # keys that grow when escaped
     return rng.choice([lambda: rstr(rng), lambda: rstr(rng), lambda: rng.choice([0, 1, 2, -5, 10 ** 20]), lambda: rng.choice([1.5, 2.0, -0.0, 1e300]), lambda: rng.choice([True, False, None]), lambda: rdate(rng), lambda: b'k', lambda: rdt(rng, odd_tz)])()
 def build(rng, d, pool, odd_tz=True):
     r = rng.random()
